@@ -338,6 +338,22 @@ class Run:
             'notes': self.notes,
         }
         coverage.update(self.cov)
+        # keys the evidence schema types as integers / strings / lists keep that type; richer values move to *_detail
+        for k in ('programs', 'states', 'transitions', 'traces_validated_against_impl', 'disagreements_checked'):
+            v = coverage.get(k)
+            if v is not None and not (isinstance(v, int) and not isinstance(v, bool)):
+                coverage[k + '_detail'] = v
+                n = None
+                if isinstance(v, dict):
+                    n = v.get(k) if isinstance(v.get(k), int) else sum(x for x in v.values() if isinstance(x, int) and not isinstance(x, bool))
+                if isinstance(n, int) and n > 0:
+                    coverage[k] = n
+                else:
+                    del coverage[k]
+        if 'explanation' in coverage and not isinstance(coverage['explanation'], str):
+            coverage['explanation_detail'] = coverage.pop('explanation')
+        if 'exhaustive' in coverage and not isinstance(coverage['exhaustive'], bool):
+            coverage['exhaustive_detail'] = coverage.pop('exhaustive')
         ev = {'property_id': self.prop, 'tier': self.tier, 'seed': self.seed, 'level': self.level,
               'coverage': coverage, 'assumptions': self.assumptions, 'wall_s': round(wall, 2), 'violations': violations}
         os.makedirs(os.path.join(VERIF, 'evidence'), exist_ok=True)
